@@ -80,6 +80,13 @@ Proof.
   revert i; induction n as [|n IH]; intros [|i]; cbn; try discriminate. apply IH.
 Qed.
 
+Lemma Forall2_imp {A B} (P Q : A -> B -> Prop) :
+  (forall a b, P a b -> Q a b) -> forall l l', Forall2 P l l' -> Forall2 Q l l'.
+Proof. intros H l l' HF. induction HF; constructor; auto. Qed.
+
+Lemma Forall2_len {A B} (P : A -> B -> Prop) l l' : Forall2 P l l' -> length l = length l'.
+Proof. intro HF. induction HF; cbn; auto. Qed.
+
 (* ---------- the loop ---------- *)
 
 Section Proofs.
@@ -271,11 +278,11 @@ Section Proofs.
     split.
     - intros [v H]. apply verify_block_positions in H; [|assumption].
       destruct H as [idxs [HF [Hd [_ [En _]]]]]. exists idxs. repeat split; auto.
-      + eapply Forall2_impl; [|exact HF]. intros it i. apply signer_index_iff. assumption.
+      + eapply Forall2_imp; [|exact HF]. intros it i. apply signer_index_iff. assumption.
       + apply enough_spec; assumption.
     - intros [idxs [HF [Hd Hq]]]. eexists. apply verify_block_positions; [assumption|].
       exists idxs. repeat split; auto.
-      + eapply Forall2_impl; [|exact HF]. intros it i. apply signer_index_iff. assumption.
+      + eapply Forall2_imp; [|exact HF]. intros it i. apply signer_index_iff. assumption.
       + clear - HF. induction HF as [|it i r is_ [a [_ Hn]] HF IH]; constructor; auto.
         apply nth_error_Some. congruence.
       + apply enough_spec; assumption.
@@ -309,7 +316,7 @@ Section Proofs.
     destruct H as [idxs [HF [Hd [Hlt [_ ->]]]]]. repeat split.
     - rewrite set_all_length. apply repeat_length.
     - rewrite set_all_count; auto.
-      + rewrite count_true_repeat_false. cbn. symmetry. eapply Forall2_length; eauto.
+      + rewrite count_true_repeat_false. cbn. symmetry. eapply Forall2_len; eauto.
       + eapply Forall_impl; [|exact Hlt]. intros i Hi. apply nth_error_repeat_false. exact Hi.
     - intro Ht. apply set_all_true in Ht. destruct Ht as [Ht|[Hin _]].
       + exfalso. eapply repeat_false_not_true; eauto.
@@ -348,8 +355,8 @@ Section Proofs.
     destruct (accept_voted _ _ _ _ _ _ _ H1 A1) as [L1 _].
     destruct (accept_voted _ _ _ _ _ _ _ H2 A2) as [L2 _].
     apply (quorum_intersect (length vals)); auto.
-    - eapply accept_quorum; eauto.
-    - eapply accept_quorum; eauto.
+    - exact (accept_quorum h1 r1 b1 p1 vals items1 v1 H1 Hne A1).
+    - exact (accept_quorum h2 r2 b2 p2 vals items2 v2 H2 Hne A2).
   Qed.
 
   (* height 0, or a nil validator list: only the empty list passes *)
@@ -380,3 +387,147 @@ Section Proofs.
     - intros [-> ->]. exists []. repeat split; constructor.
   Qed.
 End Proofs.
+
+(* ---------- the ground-truth instance used by the correspondence run ---------- *)
+
+Lemma gaddr_eqb_eq a b : gaddr_eqb a b = true <-> a = b.
+Proof.
+  destruct a as [i|], b as [j|]; cbn; split; intro H; try discriminate; try reflexivity.
+  - apply Nat.eqb_eq in H. congruence.
+  - inversion H. apply Nat.eqb_refl.
+Qed.
+
+Lemma vote_type_eqb_eq a b : vote_type_eqb a b = true <-> a = b.
+Proof. destruct a, b; cbn; split; congruence. Qed.
+
+Lemma psid_eqb_eq a b : psid_eqb a b = true <-> a = b.
+Proof.
+  destruct a as [[c1 h1]|], b as [[c2 h2]|]; cbn; split; intro H; try discriminate; try reflexivity.
+  - apply andb_true_iff in H as [H1 H2]. apply N.eqb_eq in H1. apply bytes_eqb_eq in H2. congruence.
+  - inversion H; subst. rewrite N.eqb_refl, bytes_eqb_refl. reflexivity.
+Qed.
+
+Lemma vote_msg_eqb_eq a b : vote_msg_eqb a b = true <-> a = b.
+Proof.
+  destruct a as [h1 r1 t1 b1 p1 s1], b as [h2 r2 t2 b2 p2 s2]. unfold vote_msg_eqb. cbn.
+  rewrite !andb_true_iff, !Z.eqb_eq, vote_type_eqb_eq, bytes_eqb_eq, psid_eqb_eq.
+  split.
+  - intros [[[[[-> ->] ->] ->] ->] ->]. reflexivity.
+  - intro H; inversion H; subst. repeat split.
+Qed.
+
+Lemma NoDup_map_Key l : NoDup (map Key l) <-> NoDup l.
+Proof.
+  induction l as [|x l IH]; cbn; split; intro H; try constructor; inversion H; subst.
+  - intro Hin. apply H2. apply in_map. exact Hin.
+  - apply IH. assumption.
+  - intro Hin. apply in_map_iff in Hin. destruct Hin as [y [Hy Hin]]. inversion Hy; subst. contradiction.
+  - apply IH. assumption.
+Qed.
+
+Definition gt_signed (mk : Z -> vote_msg) (vals : list nat) (it : Z * gsig) (k : nat) : Prop :=
+  snd it = Signed k (mk (fst it)) /\ In k vals.
+
+Lemma gt_member mk vals it a :
+  signed_by_member gt_recover mk (map Key vals) it a <-> exists k, a = Key k /\ gt_signed mk vals it k.
+Proof.
+  unfold signed_by_member, gt_signed. destruct it as [ts sg]. cbn [fst snd]. split.
+  - intros [Hr Hin]. apply in_map_iff in Hin. destruct Hin as [k [<- Hin]]. exists k.
+    split; [reflexivity|]. split; [|assumption].
+    destruct sg as [k' m'| |]; cbn in Hr; try discriminate.
+    destruct (vote_msg_eqb (mk ts) m') eqn:E; [|discriminate].
+    apply vote_msg_eqb_eq in E. inversion Hr; subst. reflexivity.
+  - intros [k [-> [Hs Hin]]]. subst sg. cbn.
+    assert (E : vote_msg_eqb (mk ts) (mk ts) = true) by (apply vote_msg_eqb_eq; reflexivity).
+    rewrite E. split; [reflexivity|]. apply in_map. assumption.
+Qed.
+
+Theorem gt_accept_iff height round bid ps vals items :
+  height <> 0%Z -> vals <> [] -> NoDup vals ->
+  (accepted (gt_verify_block height round bid ps (Some vals) items) <->
+   (exists ks, Forall2 (gt_signed (item_msg height round bid ps) vals) items ks /\ NoDup ks) /\
+   3 * length items > 2 * length vals).
+Proof.
+  intros Hh Hne Hnd. unfold gt_verify_block. cbn [option_map].
+  rewrite (accept_iff gaddr_eqb gt_recover gaddr_eqb_eq).
+  - rewrite map_length.
+    assert (Hx : (exists signers, Forall2 (signed_by_member gt_recover (item_msg height round bid ps) (map Key vals)) items signers /\ NoDup signers)
+            <-> (exists ks, Forall2 (gt_signed (item_msg height round bid ps) vals) items ks /\ NoDup ks)).
+    { split.
+      - intros [signers [HF Hd]].
+        assert (exists ks, signers = map Key ks /\ Forall2 (gt_signed (item_msg height round bid ps) vals) items ks) as [ks [-> HF']].
+        { clear Hd. induction HF as [|it a r as_ Hm HF IH].
+          - exists []. split; [reflexivity|constructor].
+          - destruct IH as [ks [-> HF']]. apply gt_member in Hm. destruct Hm as [k [-> Hk]].
+            exists (k :: ks). split; [reflexivity|constructor; assumption]. }
+        exists ks. split; [assumption|]. apply NoDup_map_Key. assumption.
+      - intros [ks [HF Hd]]. exists (map Key ks). split; [|apply NoDup_map_Key; assumption].
+        clear Hd. induction HF as [|it k r ks' Hk HF IH]; cbn; constructor; auto.
+        apply gt_member. exists k. auto. }
+    rewrite Hx. reflexivity.
+  - assumption.
+  - destruct vals; cbn; congruence.
+  - apply NoDup_map_Key. assumption.
+Qed.
+
+(* ---------- concrete instances (non-vacuity) ---------- *)
+
+Definition ex_bid : bytes := [1; 2; 3]%N.
+Definition ex_ps : psid := Some (1%N, [9]%N).
+Definition ex_msg (ts : Z) := item_msg 5 2 ex_bid ex_ps ts.
+Definition ex_item (k : nat) (ts : Z) : Z * gsig := (ts, Signed k (ex_msg ts)).
+Definition ex_vals := [2; 0; 1; 3].
+
+(* three of four validators, in any order: accepted, and the flags are by position *)
+Example ex_accept :
+  gt_verify_block 5 2 ex_bid ex_ps (Some ex_vals) [ex_item 3 10; ex_item 2 11; ex_item 0 12]
+  = Accept [true; true; false; true].
+Proof. vm_compute. reflexivity. Qed.
+
+Example ex_hyps : (5 <> 0)%Z /\ ex_vals <> [] /\ NoDup ex_vals.
+Proof.
+  split; [discriminate|]. split; [discriminate|].
+  repeat constructor; cbn; intuition discriminate.
+Qed.
+
+Example ex_too_few :
+  gt_verify_block 5 2 ex_bid ex_ps (Some ex_vals) [ex_item 3 10; ex_item 2 11] = Reject.
+Proof. vm_compute. reflexivity. Qed.
+
+(* a sufficient set plus one more item that is not a validator's signature over
+   this block: the whole list is refused *)
+Example ex_extra_forged :
+  gt_verify_block 5 2 ex_bid ex_ps (Some ex_vals) [ex_item 3 10; ex_item 2 11; ex_item 0 12; (13%Z, Junk)] = Reject
+  /\ gt_verify_block 5 2 ex_bid ex_ps (Some ex_vals) [ex_item 3 10; ex_item 2 11; ex_item 0 12; (13%Z, Unrec)] = Reject
+  /\ gt_verify_block 5 2 ex_bid ex_ps (Some ex_vals) [ex_item 3 10; ex_item 2 11; ex_item 0 12; ex_item 7 13] = Reject
+  /\ gt_verify_block 5 2 ex_bid ex_ps (Some ex_vals) [ex_item 3 10; ex_item 2 11; ex_item 0 12; ex_item 2 13] = Reject.
+Proof. vm_compute. repeat split. Qed.
+
+(* a signature of a validator over another round / height / block / part set /
+   vote type / timestamp does not count *)
+Example ex_wrong_target :
+  let other := [ (12%Z, Signed 0 (item_msg 5 3 ex_bid ex_ps 12));
+                 (12%Z, Signed 0 (item_msg 6 2 ex_bid ex_ps 12));
+                 (12%Z, Signed 0 (item_msg 5 2 [1; 2; 4]%N ex_ps 12));
+                 (12%Z, Signed 0 (item_msg 5 2 ex_bid (Some (2%N, [9]%N)) 12));
+                 (12%Z, Signed 0 (item_msg 5 2 ex_bid None 12));
+                 (12%Z, Signed 0 (VoteMsg 5 2 Prevote ex_bid ex_ps 12));
+                 (12%Z, Signed 0 (item_msg 5 2 ex_bid ex_ps 13)) ] in
+  forallb (fun it => match gt_verify_block 5 2 ex_bid ex_ps (Some ex_vals) [ex_item 3 10; ex_item 2 11; it] with
+                     | Reject => true | Accept _ => false end) other = true.
+Proof. vm_compute. reflexivity. Qed.
+
+Example ex_genesis :
+  gt_verify_block 0 0 ex_bid ex_ps (Some ex_vals) [] = Accept [] /\
+  gt_verify_block 0 0 ex_bid ex_ps (Some ex_vals) [ex_item 3 10; ex_item 2 11; ex_item 0 12] = Reject /\
+  gt_verify_block 5 2 ex_bid ex_ps None [] = Accept [] /\
+  gt_verify_block 5 2 ex_bid ex_ps None [ex_item 3 10] = Reject /\
+  gt_verify_block 5 2 ex_bid ex_ps (Some []) [] = Accept [].
+Proof. vm_compute. repeat split. Qed.
+
+(* the defect this model exposed (repaired in /repo by commit ac6da88): before
+   the repair an item whose signature does not recover was not refused — the
+   nil address was dereferenced *)
+Theorem prefix_crash_refuted :
+  exists items, scan0 gaddr_eqb gt_recover ex_msg (map Key ex_vals) (repeat false 4) items = Crash0.
+Proof. exists [ex_item 3 10; (11%Z, Unrec)]. vm_compute. reflexivity. Qed.
